@@ -411,4 +411,27 @@ def stateLimsLegacy (given : List (Option Lim)) : List Lim := given.map declLim
 /-- widths of declared entries, from the names (`expandName` of Model.lean) -/
 def declWidths (names : List String) : List Nat := names.map (fun n => (expandName n).length)
 
+/-! ### vocabulary of the property statements (Props/C04, C11, C15) -/
+
+/-- component `s` of `V · counts` for a state-change matrix given by columns (one per event) -/
+def mulVec (cols : List Vec) (counts : List Nat) (s : Nat) : Rat :=
+  ((cols.zip counts).map (fun cn => cn.1.getD s 0 * (cn.2 : Rat))).sum
+
+/-- a property of every step of a path, each step seen from its own pre-state `(x, t)` -/
+def Steps (P : Vec → Rat → Rec → Prop) : Vec → Rat → List Rec → Prop
+  | _, _, [] => True
+  | x, t, r :: rs => P x t r ∧ Steps P r.x r.t rs
+
+/-- `v` respects the limit `l` -/
+def okLim (l : Lim) (v : Rat) : Prop :=
+  (∀ lo, l.1 = some lo → (lo : Rat) ≤ v) ∧ (∀ hi, l.2 = some hi → v ≤ (hi : Rat))
+
+/-- every state that has a limit entry respects it -/
+def Within (lims : List Lim) (x : Vec) : Prop :=
+  ∀ (i : Nat) (l : Lim) (v : Rat), lims[i]? = some l → x[i]? = some v → okLim l v
+
+/-- sum of the `d`s whose time satisfies `p` (events selected by their time) -/
+def selSum (p : Rat → Bool) (taus : List Rat) (ds : List Rat) : Rat :=
+  (List.zipWith (fun τ d => if p τ then d else 0) taus ds).sum
+
 end Pygom.Stoch
